@@ -37,6 +37,7 @@ THOROUGH = QUICK + [c for c in c04.THOROUGH if c[2] is None and c not in c04.QUI
 SHAPE_OF = dict(c04.SHAPE_OF, plant_dict_costs='plant', names_collide='names', names_collide_T12='names', plant_win_empty='plant',
                 orderbook_all_outside='orderbook', contract_storage_mip='contract_storage',
                 contract_storage_msd='contract_storage')
+GRIDV_QUICK = [('two_node', 'month_d'), ('plant_dict_costs', 'day_d_cet_dst'), ('windows_gap', 'quarter_min'), ('scaled_storage', 'day_h_useast_fall')]
 BOUNDS = dict(quick='shapes %s, T<=8 (12 for the colliding-names shape)' % [c[0] for c in QUICK],
               thorough='shapes %s' % [c[0] for c in THOROUGH])
 OUTSIDE = ['SLP problems (their mapping is checked in C17)']
@@ -44,7 +45,8 @@ OUTSIDE = ['SLP problems (their mapping is checked in C17)']
 
 def cases(tier, seed):
     lst = THOROUGH if tier == 'thorough' else QUICK
-    return [(cid, dict(shape=SHAPE_OF.get(cid, cid), kw=dict(kw), split=split, level=level)) for cid, kw, split, level in lst]
+    lst = lst + c01.grid_variants(lst, tier, SHAPE_OF, GRIDV_QUICK)
+    return [(cid, dict(shape=SHAPE_OF.get(cid.split('@')[0], cid.split('@')[0]), kw=dict(kw), split=split, level=level)) for cid, kw, split, level in lst]
 
 
 def _fail(rec, name, info):
